@@ -17,7 +17,7 @@ Log == ndJsonDeserialize("trace.ndjson")
 VARIABLES l, w, h, nviol, ndrift, cnt
 tvars == <<l, w, h, nviol, ndrift, cnt, cfg>>
 
-Counters == {"replayed", "sched_ok", "sched_rej", "priced", "gas_max", "faults", "faults_fired", "faults_soft", "out_msgs", "parsed", "shapebad", "replicas", "probe",
+Counters == {"uname_ok", "uname_rej", "replayed", "sched_ok", "sched_rej", "priced", "gas_max", "faults", "faults_fired", "faults_soft", "out_msgs", "parsed", "shapebad", "replicas", "probe",
              "steps", "ok", "err", "unk", "pred", "tok_ok", "deliver_ok", "deliver_err", "refund_ok", "frozen_rej", "paused_rej", "payable_rej",
              "role_rej", "role_ok", "supply_ok", "overdraft_rej", "create_ok", "handover_ok", "handover_deliver", "kv_ok", "kv_prot_rej",
              "meta_fn_ok", "alias_rej", "gas_rej", "flag_ok", "acct_ok", "acct_rej", "nonpay_exempt"}
@@ -85,10 +85,11 @@ StepPred(name, wp, ev, w2, hp, r) ==
     [] name = "P13_InputIntact" -> P13_InputIntact(wp, ev, w2, hp, r)
     [] name = "P17_FaultIsError" -> P17_FaultIsError(wp, ev, w2, hp, r)
     [] name = "P17_NoPanic" -> P17_NoPanic(wp, ev, w2, hp, r)
+    [] name = "P18_UserNameBound" -> P18_UserNameBound(wp, ev, w2, hp, r)
     [] name = "P00_ReplayAgrees" -> P00_ReplayAgrees(wp, ev, w2, hp, r)
     [] name = "P01_DeliveryNominal" -> P01_DeliveryNominal(wp, ev, w2, hp, r)
     [] OTHER -> TRUE
-StepNames == {"P00_ReplayAgrees", "P01_DeliveryNominal", "P16_ProbePrice", "P16_Charged", "P10_ParserEqualsLedger", "P10_RoundTrip", "P10_Accepted", "P11_Shape", "P11_ShapeVerdict", "P11_Alloc", "P13_Replicas", "P13_InputIntact", "P17_FaultIsError", "P17_NoPanic", "P01_Exact", "P01_DeliveryAccepted", "P01_RefundRestores", "P01_FailKeeps", "P02_Delta", "P02_Others", "P02_NoOverdraft", "P03_Authority", "P03_Grant", "P03_Denied", "P04_Immobile", "P04_NoCreditWhilePaused", "P04_FlagOnly", "P04_Restores", "P05_Protected", "P05_KVExact", "P05_Frame", "P06_NoGasCreated", "P06_Underfunded", "P07_ReturnedNonce", "P07_Handover", "P07_CtrOnlyByCreate", "P08_Conf", "P08_Create", "P08_OnlyUriAttr", "P08_UriAttrExact", "P08_WrongHash", "P09_Admissible", "P09_Rejected", "P16_Price"}
+StepNames == {"P18_UserNameBound", "P00_ReplayAgrees", "P01_DeliveryNominal", "P16_ProbePrice", "P16_Charged", "P10_ParserEqualsLedger", "P10_RoundTrip", "P10_Accepted", "P11_Shape", "P11_ShapeVerdict", "P11_Alloc", "P13_Replicas", "P13_InputIntact", "P17_FaultIsError", "P17_NoPanic", "P01_Exact", "P01_DeliveryAccepted", "P01_RefundRestores", "P01_FailKeeps", "P02_Delta", "P02_Others", "P02_NoOverdraft", "P03_Authority", "P03_Grant", "P03_Denied", "P04_Immobile", "P04_NoCreditWhilePaused", "P04_FlagOnly", "P04_Restores", "P05_Protected", "P05_KVExact", "P05_Frame", "P06_NoGasCreated", "P06_Underfunded", "P07_ReturnedNonce", "P07_Handover", "P07_CtrOnlyByCreate", "P08_Conf", "P08_Create", "P08_OnlyUriAttr", "P08_UriAttrExact", "P08_WrongHash", "P09_Admissible", "P09_Rejected", "P16_Price"}
 
 \* state predicates (on the recorded post-state and the history after the step)
 StatePred(name, w2, h2) ==
@@ -128,6 +129,7 @@ Triggers(wp, ev, w2, r) ==
            /\ EntryNonce(wp.acct[ev.caller].esdt[Arg(ev,1).h \o NBHex(Arg(ev,2).n)]) # Arg(ev,2).n THEN {"alias_rej"} ELSE {})
   \cup (IF ev.fn \in FlagFns /\ IsOk(ev) THEN {"flag_ok"} ELSE {})
   \cup (IF ev.fn \in AcctFns THEN (IF IsOk(ev) THEN {"acct_ok"} ELSE {"acct_rej"}) ELSE {})
+  \cup (IF ev.fn = "SetUserName" /\ ev.dst THEN (IF IsOk(ev) THEN {"uname_ok"} ELSE {"uname_rej"}) ELSE {})
   \cup (IF ev.fn \in TokenFns /\ IsOk(ev) /\ (\E a \in Accts(w2) : Gained(wp, w2, a) /\ a # ev.caller /\ ~PayableOK(wp, a)) THEN {"nonpay_exempt"} ELSE {})
 
 Init ==
